@@ -401,6 +401,23 @@ fn run_scn_inner(s: &Scn, t: &mut Tape, ctx: &mut Ctx) -> Verdict {
             other => return fail(format!("later driver poll #{n} returned {other:?}, expected {e:?}")),
         }
     }
+    // (3b) shutdown() is a driver call too: it reports the connection's error instead of pretending to start a graceful shutdown
+    for n in [0usize, 3] {
+        let r = match &mut d {
+            DriverObj::Client(c) => {
+                let mut f = Box::pin(c.shutdown(n));
+                f.as_mut().poll(&mut cx).map(|r| r.map_err(|x| conn_info(&x)))
+            }
+            DriverObj::Server(c) => {
+                let mut f = Box::pin(c.shutdown(n));
+                f.as_mut().poll(&mut cx).map(|r| r.map_err(|x| conn_info(&x)))
+            }
+        };
+        match r {
+            Poll::Ready(Err(c)) if c == e => {}
+            other => return fail(format!("shutdown({n}) on the driver after the connection error returned {other:?}, expected {e:?}")),
+        }
+    }
     // (2) transport
     let closes = net.close_calls(side);
     match &e {
@@ -544,7 +561,133 @@ fn variants_opt(kmax: usize, all_droppers: bool) -> Vec<Scn> {
     v
 }
 
+
+/// Sequential family (no race needed): the FIRST connection error is detected inside `shutdown()` - the peer has asked to stop
+/// sending on h3's control stream, so the GOAWAY write fails (H3_CLOSED_CRITICAL_STREAM). It must become the connection's single
+/// outcome like any other: one close with that code, the same error from every later driver call and from the request handle.
+fn shutdown_failure_case(server: bool, stop_code: u64, ctx: &mut Ctx) -> Verdict {
+    use crate::simnet::peer::{PeerOp, RawPeer};
+    ctx.eval();
+    fastrand::seed(3);
+    let net = Net::new();
+    let side = if server { Side::Server } else { Side::Client };
+    let raw = side.other();
+    net.set_raw(raw);
+    #[derive(Default, Debug, Clone)]
+    struct O {
+        shutdown: Option<Result<(), ConnInfo>>,
+        later_driver: Vec<Option<ConnInfo>>,
+        later_shutdown: Option<Result<(), ConnInfo>>,
+        handle: Option<Result<(), ErrInfo>>,
+        built: bool,
+    }
+    let o: Shared<O> = shared(O::default());
+    let go = crate::simnet::exec::Signal::new();
+    let mut ex = Exec::new();
+    let (net2, o2, go2) = (net.clone(), o.clone(), go.clone());
+    if server {
+        ex.spawn("server", async move {
+            let mut conn: ServerConn = match h3::server::builder().send_grease(false).build(net2.conn(Side::Server)).await {
+                Ok(c) => c,
+                Err(_) => return,
+            };
+            let Ok(Some(r)) = conn.accept().await else { return };
+            let Ok((_q, mut st)) = r.resolve_request().await else { return };
+            o2.borrow_mut().built = true;
+            go2.wait(0).await;
+            let r = conn.shutdown(0).await.map_err(|e| conn_info(&e));
+            o2.borrow_mut().shutdown = Some(r);
+            for _ in 0..3 {
+                let noop = futures_util::task::noop_waker();
+                let mut cx = Context::from_waker(&noop);
+                let p = match conn.poll_accept_request_stream(&mut cx) {
+                    Poll::Ready(Err(e)) => Some(conn_info(&e)),
+                    _ => None,
+                };
+                o2.borrow_mut().later_driver.push(p);
+            }
+            o2.borrow_mut().later_shutdown = Some(conn.shutdown(5).await.map_err(|e| conn_info(&e)));
+            let h = st.send_response(http::Response::builder().status(200).body(()).unwrap()).await.map_err(|e| err_info(&e));
+            o2.borrow_mut().handle = Some(h);
+            std::future::pending::<()>().await;
+            drop((conn, st));
+        });
+    } else {
+        ex.spawn("client", async move {
+            let Ok((mut conn, mut sr)): Result<(ClientConn, SendReq), _> = h3::client::builder().send_grease(false).build(net2.conn(Side::Client)).await else { return };
+            let req = http::Request::builder().method("POST").uri("https://example.com/").body(()).unwrap();
+            let Ok(mut st) = sr.send_request(req).await else { return };
+            o2.borrow_mut().built = true;
+            go2.wait(0).await;
+            let r = conn.shutdown(0).await.map_err(|e| conn_info(&e));
+            o2.borrow_mut().shutdown = Some(r);
+            for _ in 0..3 {
+                let noop = futures_util::task::noop_waker();
+                let mut cx = Context::from_waker(&noop);
+                let p = match conn.poll_close(&mut cx) {
+                    Poll::Ready(e) => Some(conn_info(&e)),
+                    _ => None,
+                };
+                o2.borrow_mut().later_driver.push(p);
+            }
+            o2.borrow_mut().later_shutdown = Some(conn.shutdown(5).await.map_err(|e| conn_info(&e)));
+            let h = st.send_data(Bytes::from_static(b"late")).await.map_err(|e| err_info(&e));
+            o2.borrow_mut().handle = Some(h);
+            std::future::pending::<()>().await;
+            drop((conn, sr, st));
+        });
+    }
+    // h3's control stream is the first unidirectional stream it opens: id 2 (client) / 3 (server)
+    let ctl_id = if server { 3 } else { 2 };
+    let mut ops = vec![PeerOp::OpenUni(0), PeerOp::Write(0, peer::control_preamble(&[]))];
+    if server {
+        ops.extend([PeerOp::OpenBidi(1), PeerOp::Write(1, peer::post_request_headers())]);
+    }
+    ops.extend([PeerOp::Barrier, PeerOp::Adopt(9, ctl_id), PeerOp::Stop(9, stop_code), PeerOp::Barrier, PeerOp::Signal(0)]);
+    let mut rp = RawPeer::new(raw, ops);
+    rp.signals.push(go.clone());
+    let empty: [u16; 0] = [];
+    ex.run(&net, &mut rp, &mut Tape::new(&empty), Style::Eager, 100_000);
+    if let Some((task, p)) = ex.panics().first() {
+        return Err(Failure::new(format!("panic in task {task}: {p}"), json!({"kind": "shutdown_failure", "server": server})));
+    }
+    let obs = o.borrow().clone();
+    let closes = net.close_calls(side);
+    let case = || json!({"kind": "shutdown_failure", "role": if server { "server" } else { "client" }, "stop_code": stop_code.to_string(), "observed": format!("{obs:?}"), "closes": format!("{closes:?}")});
+    let fail = |m: String| Err(Failure::direct(m, case()));
+    if !obs.built {
+        return Err(Failure::fault("shutdown_failure_case: the connection was not set up"));
+    }
+    let e = ConnInfo::Local { code: code::CLOSED_CRITICAL_STREAM };
+    if obs.shutdown != Some(Err(e.clone())) {
+        return fail(format!("the peer stopped h3's control stream: shutdown(0) must fail with H3_CLOSED_CRITICAL_STREAM, got {:?}", obs.shutdown));
+    }
+    if closes.len() != 1 || closes[0].code != code::CLOSED_CRITICAL_STREAM {
+        return fail(format!("exactly one close with H3_CLOSED_CRITICAL_STREAM is due, saw {closes:?}"));
+    }
+    if obs.later_driver.iter().any(|p| p.as_ref() != Some(&e)) || obs.later_driver.len() != 3 {
+        return fail(format!("later driver calls must report the error shutdown() detected, got {:?}", obs.later_driver));
+    }
+    if obs.later_shutdown != Some(Err(e.clone())) {
+        return fail(format!("a later shutdown(5) must report the same error, got {:?}", obs.later_shutdown));
+    }
+    match &obs.handle {
+        Some(Err(ErrInfo::Conn(c))) if *c == e => {}
+        other => return fail(format!("a later call on the request handle must report the connection's error {e:?}, got {other:?}")),
+    }
+    ctx.class("first_error_detected_inside_shutdown");
+    ctx.nontrivial(&("shutdown_failure", server, stop_code));
+    Ok(())
+}
+
 fn exhaustive(ctx: &mut Ctx, shard: usize, nshards: usize) -> Verdict {
+    if shard == 0 {
+        for server in [false, true] {
+            for code in [0x10cu64, 0x100, 0, (1 << 62) - 1] {
+                shutdown_failure_case(server, code, ctx)?;
+            }
+        }
+    }
     // all interleavings for 1 racing handle (quick) / 1 and 2 (thorough); schedules partitioned by index
     let kmax = ctx.tier.pick(1, 2);
     let mut total = 0u64;
@@ -625,6 +768,9 @@ fn parse_scn(v: &Value) -> Scn {
 }
 
 fn run_direct(d: &Value, ctx: &mut Ctx) -> Verdict {
+    if d["kind"].as_str() == Some("shutdown_failure") {
+        return shutdown_failure_case(d["role"].as_str() == Some("server"), d["stop_code"].as_str().and_then(|s| s.parse().ok()).unwrap_or(0x10c), ctx);
+    }
     let s = parse_scn(&d["scenario"]);
     let digits: Vec<u32> = d["digits"].as_array().map(|a| a.iter().map(|x| x.as_u64().unwrap_or(0) as u32).collect()).unwrap_or_default();
     let mut t = Tape::from_digits(&digits);
